@@ -96,7 +96,7 @@ def _update(v, path, val):
     raise Unsupported(f'update .{p} on {v!r}')
 
 
-GENERIC_NAME = re.compile(r'^(?:[A-Z]\w{0,2}|Self|__\w+|impl .*)$')
+GENERIC_NAME = re.compile(r'^(?:[A-Z][0-9]?|Self|__\w+|impl .*)$')
 
 
 def strip_generics(s):
